@@ -108,6 +108,7 @@ type zz15T5 struct {
 	D int8 `json:"Ab"`
 	E int8 `json:"xy,case:ignore"`
 	F int8 `json:"x-y,case:ignore"`
+	G int8 `json:"gz,case:strict"`
 }
 
 // ---- T6: embedded fallback of map type.
@@ -273,7 +274,7 @@ func zz15Table(t int) []zz15M {
 		return []zz15M{{Name: "-", OmitZero: true}, {Name: "d"}, {Name: "E", OmitZero: true}, {Name: "a_b"}, {Name: "g", Quoted: true},
 			{Name: "h-1", OmitZero: true, Quoted: true}, {Name: "$%/ x"}, {Name: "t\tb"}}
 	case 5:
-		return []zz15M{{Name: "ab"}, {Name: "AB", Case: 1}, {Name: "a_b", Case: 2}, {Name: "Ab"}, {Name: "xy", Case: 1}, {Name: "x-y", Case: 1}}
+		return []zz15M{{Name: "ab"}, {Name: "AB", Case: 1}, {Name: "a_b", Case: 2}, {Name: "Ab"}, {Name: "xy", Case: 1}, {Name: "x-y", Case: 1}, {Name: "gz", Case: 2}}
 	case 6:
 		return []zz15M{{Name: "a"}, {Name: "b_c", Case: 1}}
 	case 7:
@@ -342,7 +343,7 @@ func zz15Leaves(t int, v any, alloc bool) []*int8 {
 	case *zz15T4:
 		return []*int8{&x.B, &x.D, &x.E, &x.F, &x.G, &x.H, &x.I, &x.J, &x.A, &x.c}
 	case *zz15T5:
-		return []*int8{&x.A, &x.B, &x.C, &x.D, &x.E, &x.F}
+		return []*int8{&x.A, &x.B, &x.C, &x.D, &x.E, &x.F, &x.G}
 	case *zz15T6:
 		return []*int8{&x.A, &x.B}
 	case *zz15T7:
